@@ -71,7 +71,10 @@ def check_property(pid, tier, seed):
         for ud in u['stats']['undecided']:
             undecided.append('%s: %s' % (u['unit'], ud))
         can = u.get('canary') or {}
-        vacuity.append({'unit': u['unit'], 'paths': u['stats']['paths'], 'path_ends_probed': can.get('path_ends_probed'), 'not_vacuous': can.get('not_vacuous')})
+        vacuity.append({'unit': u['unit'], 'paths': u['stats']['paths'], 'path_ends_probed': can.get('path_ends_probed'), 'not_vacuous': can.get('not_vacuous'),
+                        'loop_body_paths_probed': can.get('loop_body_paths_probed'), 'loop_body_paths_not_vacuous': can.get('loop_body_paths_not_vacuous')})
+        if can.get('loop_body_paths_probed') and not can.get('loop_body_paths_not_vacuous'):
+            undecided.append('%s: VACUOUS LOOP BODIES - `False` is provable at the end of every probed loop-body path (contradictory invariant?)' % u['unit'])
         if can.get('path_ends_probed') and not can.get('not_vacuous'):
             undecided.append('%s: VACUOUS - `False` is provable at every probed path end (contradictory requires/invariant?)' % u['unit'])
         if not u.get('n_generated') and not u['stats']['undecided']:
